@@ -389,6 +389,14 @@ pub fn run_c04(ctx: &mut Ctx) {
         { let mut v = base.clone(); let inj = Value::Tag(24, Box::new(Value::Bytes(to_bytes(&Value::Map(vec![(Value::Text("digestID".into()), Value::Integer(1234.into())), (Value::Text("random".into()), Value::Bytes(vec![9; 16])),
             (Value::Text("elementIdentifier".into()), Value::Text("age_over_65".into())), (Value::Text("elementValue".into()), Value::Bool(true))])))));
           if let Some(items) = items_mut(&mut v, NS) { items.push(inj); } go(ctx, "item-injected", &mut v, true); }
+        // a forged item that REUSES the digestID of a disclosed authentic item, placed before it / after it in the array
+        for before in [true, false] { let mut v = base.clone();
+            let did = items_mut(&mut v, NS).and_then(|a| a.last().cloned()).and_then(|it| match it { Value::Tag(24, b) => b.as_bytes().and_then(|bb| cbor::from_slice::<Value>(bb).ok()), _ => None })
+                .and_then(|iv| mget(&iv, "digestID").cloned()).unwrap_or(Value::Integer(0.into()));
+            let inj = Value::Tag(24, Box::new(Value::Bytes(to_bytes(&Value::Map(vec![(Value::Text("digestID".into()), did), (Value::Text("random".into()), Value::Bytes(vec![5; 16])),
+                (Value::Text("elementIdentifier".into()), Value::Text("age_over_65".into())), (Value::Text("elementValue".into()), Value::Bool(true))])))));
+            if let Some(items) = items_mut(&mut v, NS) { if before { items.insert(0, inj); } else { items.push(inj); } }
+            go(ctx, if before { "item-injected-reusing-a-digestid-before-its-owner" } else { "item-injected-reusing-a-digestid-after-its-owner" }, &mut v, true); }
         { let mut v = base.clone(); if let Some(x) = mget_mut(doc0_mut(&mut v).unwrap(), "docType") { *x = Value::Text(MDL.into()); }
           // MSO of another docType: swap the whole issuerSigned.issuerAuth for one issued for a different docType by the same issuer (signature valid, docType mismatching)
           let other = world::issue(&pki, "org.example.other", sess::default_ns_values(), isomdl::definitions::DigestAlgorithm::SHA256, false, &live.sim.device_key).unwrap();
